@@ -395,6 +395,9 @@ class Model(Object):
                 new.__dict__[attr] = self.__dict__[attr]
         new.notes = deepcopy(self.notes)
         new.annotation = deepcopy(self.annotation)
+        # The copy starts without contexts; assign this before building the
+        # reactions, which look for the context of their model.
+        new._contexts = []
 
         new.metabolites = DictList()
         do_not_copy_by_ref = {"_reaction", "_model"}
